@@ -283,6 +283,21 @@ let do_diag rest =
                      (if x_closed_b g (x_reached g) then 1 else 0))
   | _ -> failwith "diag: sexp"
 
+
+(* link <id> (rg (def name expr) ...) : Compile's first passes on the raw rule list (names are ignored: rule i is the i-th def) *)
+let do_link rest =
+  let i = String.index rest ' ' in
+  let cid = String.sub rest 0 i in
+  match parse_sexp (String.sub rest (i + 1) (String.length rest - i - 1)) with
+  | L (Atom "rg" :: defs) ->
+    let bodies = List.map (function L [Atom "def"; Atom _; e] -> expr_of e | _ -> failwith "def") defs in
+    let ((g, ptx), acts) = x_link bodies in
+    print_endline (Printf.sprintf "link %s :: ptx=%s acts=%s %s" cid
+                     (match ptx with None -> "-" | Some n -> string_of_int (int_of_nat n))
+                     (String.concat "," (List.map (fun n -> string_of_int (int_of_nat n)) acts))
+                     (sexp_of_grammar g))
+  | _ -> failwith "link: sexp"
+
 (* cli <id> strict src out openin openout read parse compile *)
 let do_cli rest =
   match String.split_on_char ' ' rest with
@@ -321,6 +336,7 @@ let () =
            | "diag" -> do_diag rest
            | "opt" -> do_opt rest
            | "emit" -> do_emit rest
+           | "link" -> do_link rest
            | "elab" -> do_elab rest
            | "ruletype" -> do_ruletype rest
            | _ -> print_endline ("ERR unknown command " ^ cmd))
